@@ -249,6 +249,7 @@ def w_truth(ctx: core.Ctx, arg):
             after = hist.record()
             hist.problems.clear()
             shapes.append(mdibops.op_shape(ap))
+            ctx.case(('tr', mdib_file, async_mgr) + mdibops.op_shape(ap), nontrivial=ap.outcome == 'ok')
             opk = op['op'] + ('.' + op['sub'] if op.get('sub') else '')
             detail = {**label, 'step': step, 'op': op, 'outcome': ap.outcome}
             entries = world.network.log[n0:]
